@@ -95,7 +95,8 @@ def _pred(constraint, value):
 
 def match_known(known, obligation, features):
     for e in known:
-        if e['obligation'] != obligation:
+        eo = e['obligation']
+        if not (eo == obligation or (eo.endswith('*') and obligation.startswith(eo[:-1]))):
             continue
         when = e.get('when', {})
         if all(_pred(c, (features or {}).get(k)) for k, c in when.items()):
